@@ -105,10 +105,118 @@ def _compare(ex, rep, name, a, b, extract, T, xf, img_tol=False):
     if not goals:
         rep.record(name, "unsat")
         return
+    # cheap falsification first: evaluate both sides under a few models of the path (the solver's own and randomised ones); a numeric difference is a
+    # candidate counterexample, confirmed by the replay against the real code like every other model.  Equivalence queries whose answer is "different"
+    # are the ones nonlinear solving is slowest on.
+    hit = _falsify(ex, va, vb, img_tol)
+    if hit is not None:
+        rep.record(name, "sat")
+        rep.violation(name, f"{name}", f"the two implementations can produce different values for '{name}'", extract(hit[0], DefaultEnv(hit[1])))
+        return
     discharge(ex, rep, name, And(*goals), on_sat=lambda m, env: (f"{name}", f"the two implementations can produce different values for '{name}'", extract(m, env)))
 
 
+def _falsify(ex, va, vb, img_tol, tries=12):
+    import random, math
+    from symx.xf import XF, eval_xf
+    from symx.explorer import model_env
+    base = ex.full_model()
+    if base is None:
+        return None
+    env0 = model_env(base)
+    names = [k for k, v in env0.items() if isinstance(v, Fraction) and "!" not in k and not k.startswith(("sqrt", "exp", "fresh", "spacing"))]
+    cands = [(base, env0)]
+    rnd = random.Random(len(names) * 7919 + len(va))
+    for _ in range(tries):
+        extra = [z3.Real(k) == z3.Q(rnd.randrange(-8, 41), 4) for k in names]
+        try:
+            m = ex.full_model(extra)
+        except Exception:  # noqa
+            m = None
+        if m is not None:
+            cands.append((m, model_env(m)))
+    best = None  # the candidate with the LARGEST difference (tiny differences drown in float32 on replay)
+    for m, env in cands:
+        memo = {}
+        worst = 0.0
+        for x, y in zip(va, vb):
+            if not (isinstance(x, XF) or isinstance(y, XF)):
+                continue
+            try:
+                fx, fy = eval_xf(XF.of(x), env, memo), eval_xf(XF.of(y), env, memo)
+            except Exception:  # noqa
+                worst = 0.0
+                break
+            if fx != fx and fy != fy:
+                continue
+            tol = (1.0 / 255 + 1e-6) if img_tol else 1e-7 * max(1.0, abs(fx) if fx == fx else 1.0)
+            if (fx != fx) != (fy != fy) or ((math.isinf(fx) or math.isinf(fy)) and fx != fy):
+                worst = math.inf
+            elif abs(fx - fy) > tol:
+                worst = max(worst, abs(fx - fy))
+        if worst > 0 and (best is None or worst > best[0]):
+            best = (worst, m, env)
+    return None if best is None else (best[1], best[2])
+
+
 # ------------------------------------------------------------------ (a) DataPipe blocks vs functions
+def _block_pairs(blk, e1, e2):
+    """[(key, block output, function output, is_image)] for one DataPipe block and its functional counterpart on two copies of the same example
+    (used by the symbolic run on term tensors and by the replay on real tensors)."""
+    import torch
+    import sleap_nn.data.instance_cropping as ic
+    import sleap_nn.data.normalization as nm
+    import sleap_nn.data.resizing as rz
+    import sleap_nn.data.instance_centroids as ce
+    import sleap_nn.data.confidence_maps as cmm
+    import sleap_nn.data.edge_maps as em
+    if blk == "Normalizer":
+        e1["image"] = torch.arange(192, dtype=torch.uint8).reshape(1, 3, 8, 8)
+        e2["image"] = e1["image"].clone()
+        out = next(iter(nm.Normalizer([e1], is_rgb=False)))
+        ref = nm.convert_to_grayscale(nm.apply_normalization(e2["image"]))
+        return [("image", out["image"], ref, True)]
+    if blk == "Resizer":
+        out = next(iter(rz.Resizer([e1], scale=0.5)))
+        ri, rp = rz.apply_resizer(e2["image"], e2["instances"], scale=0.5)
+        return [("image", out["image"], ri, True), ("instances", out["instances"], rp, False)]
+    if blk == "PadToStride":
+        e1["image"] = e1["image"][..., :6, :7].clone()
+        e2["image"] = e2["image"][..., :6, :7].clone()
+        out = next(iter(rz.PadToStride([e1], max_stride=4)))
+        return [("image", out["image"], rz.apply_pad_to_stride(e2["image"], 4), True)]
+    if blk == "InstanceCentroidFinder":
+        out = next(iter(ce.InstanceCentroidFinder([e1], anchor_ind=0)))
+        return [("centroids", out["centroids"], ce.generate_centroids(e2["instances"], anchor_ind=0), False), ("instances-untouched", out["instances"], e2["instances"], False)]
+    if blk == "InstanceCropper":
+        e1["centroids"] = ce.generate_centroids(e1["instances"], anchor_ind=0)
+        cen = ce.generate_centroids(e2["instances"], anchor_ind=0)
+        outs = [dict(o) for o in ic.InstanceCropper([e1], crop_hw=(4, 4))]
+        res = []
+        for q, o in enumerate(outs):
+            r = ic.generate_crops(e2["image"], e2["instances"][0, q], cen[0, q], (4, 4))
+            res += [(f"instance[{q}]", o["instance"], r["instance"], False), (f"centroid[{q}]", o["centroid"], r["centroid"], False), (f"instance_bbox[{q}]", o["instance_bbox"], r["instance_bbox"], False)]
+        res.append(("n_crops", torch.tensor(len(outs)), torch.tensor(2), False))
+        return res
+    if blk == "ConfidenceMapGenerator":
+        e1["instance"] = e1["instances"][:, 0]
+        out = next(iter(cmm.ConfidenceMapGenerator([e1], sigma=1.5, output_stride=2, image_key="image", instance_key="instance")))
+        return [("confidence_maps", out["confidence_maps"], cmm.generate_confmaps(e2["instances"][:, 0], (8, 8), 1.5, 2), False)]
+    if blk.startswith("MultiConfidenceMapGenerator"):
+        cen_mode = blk.endswith("centroids")
+        if cen_mode:
+            e1["centroids"] = ce.generate_centroids(e1["instances"], anchor_ind=0)
+            out = next(iter(cmm.MultiConfidenceMapGenerator([e1], sigma=1.5, output_stride=2, centroids=True)))
+            ref = cmm.generate_multiconfmaps(ce.generate_centroids(e2["instances"], anchor_ind=0), (8, 8), 2, 1.5, 2, is_centroids=True)
+            return [("centroids_confidence_maps", out["centroids_confidence_maps"], ref, False)]
+        out = next(iter(cmm.MultiConfidenceMapGenerator([e1], sigma=1.5, output_stride=2, centroids=False)))
+        return [("confidence_maps", out["confidence_maps"], cmm.generate_multiconfmaps(e2["instances"], (8, 8), 2, 1.5, 2, is_centroids=False), False)]
+    if blk == "PartAffinityFieldsGenerator":
+        out = next(iter(em.PartAffinityFieldsGenerator([e1], sigma=1.5, output_stride=4, edge_inds=torch.tensor([[0, 1]]), flatten_channels=True)))
+        return [("part_affinity_fields", out["part_affinity_fields"], em.generate_pafs(e2["instances"], (8, 8), 1.5, 4, torch.tensor([[0, 1]]), True), False)]
+    raise KeyError(blk)
+
+
 def _run_block(cfg):
     import torch
     from symx import torchfe as T, xf, stubs
@@ -135,52 +243,7 @@ def _run_block(cfg):
 
     def path():
         with T.SymMode():
-            e1, e2 = example(), example()
-            if blk == "Normalizer":
-                e1["image"] = torch.arange(192, dtype=torch.uint8).reshape(1, 3, 8, 8)
-                e2["image"] = e1["image"].clone()
-                out = next(iter(nm.Normalizer([e1], is_rgb=False)))
-                ref = nm.convert_to_grayscale(nm.apply_normalization(e2["image"]))
-                return [("image", out["image"], ref, True)]
-            if blk == "Resizer":
-                out = next(iter(rz.Resizer([e1], scale=0.5)))
-                ri, rp = rz.apply_resizer(e2["image"], e2["instances"], scale=0.5)
-                return [("image", out["image"], ri, True), ("instances", out["instances"], rp, False)]
-            if blk == "PadToStride":
-                e1["image"] = e1["image"][..., :6, :7].clone()
-                e2["image"] = e2["image"][..., :6, :7].clone()
-                out = next(iter(rz.PadToStride([e1], max_stride=4)))
-                return [("image", out["image"], rz.apply_pad_to_stride(e2["image"], 4), True)]
-            if blk == "InstanceCentroidFinder":
-                out = next(iter(ce.InstanceCentroidFinder([e1], anchor_ind=0)))
-                return [("centroids", out["centroids"], ce.generate_centroids(e2["instances"], anchor_ind=0), False), ("instances-untouched", out["instances"], e2["instances"], False)]
-            if blk == "InstanceCropper":
-                e1["centroids"] = ce.generate_centroids(e1["instances"], anchor_ind=0)
-                cen = ce.generate_centroids(e2["instances"], anchor_ind=0)
-                outs = [dict(o) for o in ic.InstanceCropper([e1], crop_hw=(4, 4))]
-                res = []
-                for q, o in enumerate(outs):
-                    r = ic.generate_crops(e2["image"], e2["instances"][0, q], cen[0, q], (4, 4))
-                    res += [(f"instance[{q}]", o["instance"], r["instance"], False), (f"centroid[{q}]", o["centroid"], r["centroid"], False), (f"instance_bbox[{q}]", o["instance_bbox"], r["instance_bbox"], False)]
-                res.append(("n_crops", torch.tensor(len(outs)), torch.tensor(2), False))
-                return res
-            if blk == "ConfidenceMapGenerator":
-                e1["instance"] = e1["instances"][:, 0]
-                out = next(iter(cmm.ConfidenceMapGenerator([e1], sigma=1.5, output_stride=2, image_key="image", instance_key="instance")))
-                return [("confidence_maps", out["confidence_maps"], cmm.generate_confmaps(e2["instances"][:, 0], (8, 8), 1.5, 2), False)]
-            if blk.startswith("MultiConfidenceMapGenerator"):
-                cen_mode = blk.endswith("centroids")
-                if cen_mode:
-                    e1["centroids"] = ce.generate_centroids(e1["instances"], anchor_ind=0)
-                    out = next(iter(cmm.MultiConfidenceMapGenerator([e1], sigma=1.5, output_stride=2, centroids=True)))
-                    ref = cmm.generate_multiconfmaps(ce.generate_centroids(e2["instances"], anchor_ind=0), (8, 8), 2, 1.5, 2, is_centroids=True)
-                    return [("centroids_confidence_maps", out["centroids_confidence_maps"], ref, False)]
-                out = next(iter(cmm.MultiConfidenceMapGenerator([e1], sigma=1.5, output_stride=2, centroids=False)))
-                return [("confidence_maps", out["confidence_maps"], cmm.generate_multiconfmaps(e2["instances"], (8, 8), 2, 1.5, 2, is_centroids=False), False)]
-            if blk == "PartAffinityFieldsGenerator":
-                out = next(iter(em.PartAffinityFieldsGenerator([e1], sigma=1.5, output_stride=4, edge_inds=torch.tensor([[0, 1]]), flatten_channels=True)))
-                return [("part_affinity_fields", out["part_affinity_fields"], em.generate_pafs(e2["instances"], (8, 8), 1.5, 4, torch.tensor([[0, 1]]), True), False)]
-            raise KeyError(blk)
+            return _block_pairs(blk, example(), example())
 
     def extract(model, env):
         return {"points": [[float("nan")] * 2 if env[f"p_{i}#nan"] else [float(env[f"p_{i}_x"]), float(env[f"p_{i}_y"])] for i in range(4)], "block": blk}
@@ -394,7 +457,25 @@ def replay(cfg, inputs, obligation):
     import torch, numpy as np
     from symx.harness import unjson_float
     if cfg["kind"] == "block":
-        return False, "block-level replays are covered by the functional checks (C01/C05/C11); symbolic disagreement is reported as inconclusive if it does not reproduce"
+        import kornia.geometry.transform  # real crop kernel
+        pts = torch.tensor(unjson_float(inputs["points"]), dtype=torch.float32).reshape(1, 2, 2, 2)
+
+        def example():
+            return {"image": (torch.arange(64, dtype=torch.float32).reshape(1, 1, 8, 8) / 64), "instances": pts.clone(), "num_instances": 2, "frame_idx": torch.tensor(0), "video_idx": torch.tensor(0)}
+        try:
+            pairs = _block_pairs(cfg["block"], example(), example())
+        except Exception as e:  # noqa
+            return True, f"block or function raised {type(e).__name__}: {e}"
+        for key, a_, b_, img in pairs:
+            if key not in obligation and not obligation.endswith(key):
+                continue
+            a_, b_ = torch.as_tensor(a_).float().squeeze(), torch.as_tensor(b_).float().squeeze()
+            if a_.shape != b_.shape:
+                return True, f"{key}: shapes {tuple(a_.shape)} vs {tuple(b_.shape)}"
+            if not torch.allclose(a_, b_, rtol=1e-4, atol=(1.0 / 255 + 1e-6) if img else 1e-5, equal_nan=True):
+                k = torch.nan_to_num((a_ - b_).abs(), nan=1e9).argmax()
+                return True, f"{key}: block gives {a_.reshape(-1)[k].item()} where the function gives {b_.reshape(-1)[k].item()} (points {pts.reshape(-1, 2).tolist()})"
+        return False, "block and function agree"
     import sleap_nn.data.custom_datasets as cd
     import sleap_nn.data.get_data_chunks as gc
     import sleap_nn.data.streaming_datasets as sd
